@@ -135,8 +135,11 @@ Burst(y) == IF y \notin DOMAIN pend THEN {}
 (* size, readdir) and the ERROR result of a directory-level call (open, mkdir, rename, remove) are  *)
 (* judged exactly only if no conflicting call (Dep, below) was in progress at any time during the   *)
 (* call; otherwise any result is accepted (`ovl`): the statement does not promise an atomic view of  *)
-(* a shared directory or of a size under concurrent change.  Data (read), successful structural     *)
-(* calls, the quiescent tree and saved manifests stay exact.                                        *)
+(* a shared directory or of a size under concurrent change; nor does it speak of a read that        *)
+(* overlaps a foreground write / truncate of the same file through ANOTHER handle ("each through    *)
+(* its own handle"): such a read may return anything.  Reads not overlapping a conflicting call      *)
+(* (background block writes are no calls), successful structural calls, the quiescent tree and      *)
+(* saved manifests stay exact.                                                                      *)
 Call(id, i) ==
     /\ id \notin DOMAIN pend
     /\ LET clash == {x \in DOMAIN pend : Dep(E(x), Trace[i])}
@@ -155,6 +158,10 @@ Lin(id) ==
             /\ UNCHANGED <<fsvars, chist>>
        ELSE /\ \/ Apply(E(id))
                \/ pend[id].ovl /\ Relaxed(E(id)) /\ UNCHANGED fsvars       \* any result, no effect
+               \/ /\ pend[id].ovl /\ E(id).op = "read"                    \* a read overlapping another handle's
+                  /\ E(id).h \in DOMAIN handles /\ E(id).res # "err"       \* write/truncate of the file: any bytes
+                  /\ handles' = [handles EXCEPT ![E(id).h].off = @ + Len(E(id).d)]
+                  /\ UNCHANGED nodes
             /\ pend' = [pend EXCEPT ![id].lin = TRUE]
             /\ chist' = NextHist
     /\ UNCHANGED <<svars, fails, okfails>>
